@@ -209,9 +209,45 @@ def o182(ctx):
                     stacked=order, names=names)
 
 
+def _bare(t):
+    """strip pure re-indexing (reshape to a column: getitem(x, <row index>)) from a term"""
+    while t.op == "call" and t.args[0] == "getitem" and len(t.args) == 3 and t.args[2].op == "sym" and str(t.args[2].args[0]).startswith("r#"):
+        t = t.args[1]
+    return t
+
+
+def o183(ctx):
+    """get_nn_stats: the table is the side-by-side stack of the two passes, row for row, in the order they produced"""
+    q = NN + "get_nn_stats"
+    m, fn = ctx.prog.func(q)
+    ctx.touched(q)
+    S = Space("neighbour pairs in the order get_nn_distances / get_nn_rotations produce them", how="root")
+    arr3 = lambda p_: Arr([sym(p_ + c) for c in "xyz"], 2, space=S)
+    v = lambda n_: Val(sym(n_), space=S)
+    src = v("nn_dist")
+    summ = {"cryocat.nnana.get_nn_distances": lambda it, a, k, n, fr: Seq([arr3("cc"), arr3("rc"), src, v("ang"), v("sid"), v("sidnn")], "tuple"),
+            "cryocat.nnana.get_nn_rotations": lambda it, a, k, n, fr: Seq([arr3("rot"), arr3("eul")], "tuple")}
+    it = Interp(ctx.prog, summaries=summ)
+    r = it.run(q, [P("motl_a"), P("motl_nn")], {})
+    if not isinstance(r.ret, Frame):
+        raise Unsupported("get_nn_stats does not return a table", fn)
+    same_rows_same_order(ctx, q, r.ret, src, "get_nn_stats lists the neighbours of each particle in the order of the search (ascending distance)", fn, m)
+    want = {"distance": "nn_dist", "angular_distance": "ang", "subtomo_idx": "sid", "subtomo_nn_idx": "sidnn"}
+    for pre, names in (("cc", ("coord_x", "coord_y", "coord_z")), ("rc", ("coord_rx", "coord_ry", "coord_rz")), ("rot", ("rot_x", "rot_y", "rot_z")),
+                       ("eul", ("phi", "theta", "psi"))):
+        for c, n_ in zip("xyz", names):
+            want[n_] = pre + c
+    for col, s_ in want.items():
+        ctx.count(1)
+        if col not in r.ret.cols or _bare(r.ret.cols[col]) != sym(s_):
+            ctx.finding(q, f"column {col}", f"column {col} of the statistics table must be the corresponding result of get_nn_distances / "
+                        f"get_nn_rotations (row for row)", fn, m, got=tm.show(r.ret.cols[col])[:80] if col in r.ret.cols else None)
+
+
 def _obligations():
     return [
         Obligation("O18.2", "row-space typing, same feature value, tree/query lists, distance/offset scaling, R_a^-1 frame, relative orientation, ids", o182, floor=25),
+        Obligation("O18.3", "get_nn_stats: columns are the results of the two passes, same rows, same order (no re-sorting)", o183, floor=17),
         Obligation("O18.6", "angular distance is the geodesic distance of SO(3) (shared with C06)", _geom.o62, floor=3),
         Obligation("O18.7", "compare_rotations returns (angular, cone, in-plane) distances (shared with C06)", _geom.o63, floor=40),
     ]
